@@ -908,6 +908,35 @@ def laws(rng, tier, ctx):
                             bad = ('law-remerge-future', lines + [merge_line(*hist[jj], names(jj)) for jj in js] + [merge_line(k2, ps) for k2, ps in later] + [read_line(t, what)],
                                    're-merging version(s) %s (their values are the ones visible as of their stamps) changed bi_read(asof=%s, what=%d) after %d further merges: %s -> %s'
                                    % (js, t, what, len(later), ra, rb))
+            # idempotence, fully interleaved (theorem merge_idem_interleaved): new versions and re-merges alternate; at every re-merge the
+            # candidate is tested against the store AT THAT MOMENT (published so far, values NaN or visible as of its stamp); the history
+            # without the re-merges is run beside it and every read compared
+            if bad is None:
+                pub = list(hist)
+                a, b = store, store
+                il_lines = []
+                nre = 0
+                for k2, ps in [(hist[-1][0] + k2, ps) for k2, ps in gen_history(rng, nd, rng.choice([2, 3, 4]), True)]:
+                    for _ in range(rng.choice([0, 1, 1, 2])):
+                        kk, pp = rng.choice(pub)
+                        vis = _read(b, 2 * kk, -1)[0]
+                        if pp and all(i in vis and (v is None or vis[i] == v) for i, v in pp):
+                            b = bi_merge(b, Bi(_series([(date(i), v) for i, v in pp]), stamp(2 * kk)))
+                            il_lines.append(merge_line(kk, pp))
+                            nre += 1
+                    new = lambda: Bi(_series([(date(i), v) for i, v in ps]), stamp(2 * k2))
+                    a, b = bi_merge(a, new()), bi_merge(b, new())
+                    il_lines.append(merge_line(k2, ps))
+                    pub.append((k2, ps))
+                if nre:
+                    for t in read_times(pub):
+                        for what in (-1, 0):
+                            count += 1
+                            ra, rb = _read(a, t, what)[0], _read(b, t, what)[0]
+                            if ra != rb and bad is None:
+                                bad = ('law-remerge-interleaved', lines + il_lines + [read_line(t, what)],
+                                       '%d re-merges of published, visible versions between the later merges changed bi_read(asof=%s, what=%d): %s -> %s'
+                                       % (nre, t, what, ra, rb))
             # a read is a read (review t5): bi_read leaves the store it is given as it was (values, stamps, dtypes, index name), and the
             # same read twice is the same Series including the name of its index - on a store no read has touched yet
             fresh = None
@@ -956,6 +985,35 @@ def laws(rng, tier, ctx):
                         badlines = [merge_line(k, pairs) for k, pairs in hist] + [read_line(t, what)]
             if bad is not None:
                 yield Finding('violation', dict(tag='law-read-spec-floats', lines=badlines, atomic=True, ordered=True), bad)
+    # k5 - int64 versions beyond 2**53 (open since i5): a history ALL of whose versions are int64 Series (no NaN, no empty version - a pandas
+    # Series holding a NaN is float64) keeps an int64 column, "repeat" is exact integer equality (2**53+1 then 2**53 are two publications) and
+    # every read returns the published integers exactly.  DECLARED outside: as soon as one version is a float Series (a NaN, an empty version)
+    # pd.concat makes the stored column float64 and 2**53+1 is stored as 2.0**53 (pandas' upcast; such an integer is not a value a float
+    # series holds) - the history below never contains one.
+    IPAL = [2 ** 53 - 1, 2 ** 53, 2 ** 53 + 1, 2 ** 53 + 2, 2 ** 53 + 3, -(2 ** 53 + 1), 2 ** 62 + 1, 7]
+    for nd in (3, 5, 25):
+        for _ in range(max(3, m // 3)):
+            hist = gen_history(rng, nd, rng.choice([2, 3, 4, 5, 6]), True, nonempty_start=True)
+            pal = dict(zip([1, 2, 3, 4, 5], rng.sample(IPAL, 5)))
+            hist = [(k, [(i, v) for i, v in pairs if v is not None]) for k, pairs in hist]
+            hist = [(k, pairs) for k, pairs in hist if pairs]
+            if not hist:
+                continue
+            ihist = [(k, [(i, pal[v]) for i, v in pairs]) for k, pairs in hist]
+            store, bad = None, None
+            for k, pairs in ihist:
+                store = bi_merge(store, Bi(pd.Series([v for _, v in pairs], index=pd.DatetimeIndex([date(i) for i, _ in pairs]), dtype='int64'), stamp(2 * k)))
+            for t in read_times(hist):
+                for what, first in ((-1, False), (0, True)):
+                    count += 1
+                    r = bi_read(store, None if t is None else stamp(t), what)
+                    got = {int((pd.Timestamp(x).to_pydatetime() - D0) // DAY): int(v) for x, v in zip(r.index, r.values)}
+                    want = py_spec(ihist, t, first)
+                    if (got != want or len(r) != len(want) or (len(r) and r.dtype != np.int64)) and bad is None:
+                        bad = 'int64 versions: bi_read(asof=%s, what=%d) = %s (dtype %s) but the publication log gives %s (values %s stand for the tokens of the lines)' % (t, what, got, r.dtype, want, pal)
+                        badlines = [merge_line(k, pairs) for k, pairs in hist] + [read_line(t, what)]
+            if bad is not None:
+                yield Finding('violation', dict(tag='law-read-spec-int64', lines=badlines, atomic=True, ordered=True), bad)
     # review v5: (a) bi_merge stamping by itself - bi_merge(store, plain series, asof=T), the first one into None - builds the very store that
     # bi_merge(store, Bi(series, T)) builds (every other line of this module stamps with Bi first); (b) a row labelled NaT: NaT is no observation date
     # (outside the quantifier), groupby drops the label in bi_merge and in bi_read - silently.  Decision: declared outside, and what the property says
